@@ -89,6 +89,18 @@ def gen_cases(tier, seed):
                         cid = "%s-W%d-%s-o%d-Z-m%d%d%d-plain-tz%s" % (edge, W, side, off, mask[0], mask[1], mask[2], tz)
                         cases.append({"id": cid, "sig": [edge, side, off, W, "Z", list(mask), 0, tz], "edge": edge, "W": W, "side": side, "off": off,
                                       "spelling": "Z", "mask": list(mask), "signed": 0, "frac": 0.0, "tz": tz})
+    # the binding the response arrives over must not matter either: SOAP (back channel) and Redirect beside POST
+    for arrive in ("soap", "redirect"):
+        for edge in EDGES:
+            for W in ((0, 180) if tier == "quick" else (0, 60, 3600)):
+                for side in ("reject", "accept"):
+                    if (edge.endswith("after-nooa") or edge == "scd-nb") and side == "accept":
+                        continue
+                    for off in ((2, 100000) if tier == "quick" else OFFSETS):
+                        mask = [1, 1, 1] if tier == "quick" else rng.choice(masks)
+                        cid = "%s-W%d-%s-o%d-Z-m%d%d%d-plain-over-%s" % (edge, W, side, off, mask[0], mask[1], mask[2], arrive)
+                        cases.append({"id": cid, "sig": [edge, side, off, W, "Z", list(mask), 0, "over-" + arrive], "edge": edge, "W": W, "side": side, "off": off,
+                                      "spelling": "Z", "mask": list(mask), "signed": 0, "frac": 0.0, "arrive": arrive})
     # "any ... that is present": messages in which the element carrying a bound occurs more than once (several SubjectConfirmations,
     # AuthnStatements, Assertions) and only one occurrence is out of range; reject side only
     for elem, bound in MULTI:
@@ -323,11 +335,18 @@ def _run_case(case, ctx):
         return {"outcome": "HARNESS-ERROR", "error": "generator and oracle disagree for %s: reasons=%r spare=%r" % (case["id"], reasons, spare)}
 
     before = dict(ctx.calls)
-    resp, exc = fed.deliver(sp, doc, dict(OUT))
+    from saml2_tophat import BINDING_HTTP_POST, BINDING_HTTP_REDIRECT, BINDING_SOAP
+    arrive_b = {"soap": BINDING_SOAP, "redirect": BINDING_HTTP_REDIRECT}.get(case.get("arrive"), BINDING_HTTP_POST)
+    if case.get("arrive"):
+        # (the Destination of the IdP-made response names the POST endpoint; it is not what is under test here)
+        dd0 = xk.Doc(doc)
+        doc = dd0.set_attr(dd0.root, "Destination", None if case["arrive"] == "soap" else fed.ACS_REDIRECT).text()
+    resp, exc = fed.deliver(sp, doc, dict(OUT), binding=arrive_b)
     accepted = resp is not None
     viol = []
     outcome = "accept" if accepted else "reject:" + (type(exc).__name__ if exc is not None else "None")
-    desc = "edge %s %s side, offset %d, allowance %d, spelling %s, present %s: %s" % (edge, side, off, W, sp_, sorted(k for k, v in present.items() if v), outcome)
+    desc = "edge %s %s side, offset %d, allowance %d, spelling %s, present %s%s: %s" % (edge, side, off, W, sp_, sorted(k for k, v in present.items() if v),
+                                                                                     (", arriving over " + case["arrive"]) if case.get("arrive") else "", outcome)
     if accepted and must_reject:
         viol.append({"key": "C04/accepted-outside-validity-window:" + edge, "what": desc + " although " + "; ".join(reasons),
                      "detail": {"document": doc[:6000], "now": clock.iso(now)}})
